@@ -181,4 +181,70 @@ example : crt 2 3 3 5 = .ok (some 8) := by
 example : crtT IntTy.i64 (2 ^ 20 - 2) (2 ^ 20 - 1) 5 (2 ^ 20) = crt (2 ^ 20 - 2) (2 ^ 20 - 1) 5 (2 ^ 20) :=
   crt_nowrap _ _ _ _ (by decide) (by decide) (by decide) (by decide)
 
+/-! ### Every signed instantiation, up to its own overflow threshold
+
+The property's last sentence ("within magnitudes for which the mathematical intermediate values fit the integer type")
+is the domain of every instantiation other than the `i64` box.  `domEgcd t a b c` / `domCrt t a1 m1 a2 m2`
+(`Model/Gcd.lean`) decide it for one concrete input from the mathematics alone (gcd, lcm, the coefficient bound of
+`egcd_bound`); the driver prints a definite `S` exactly when they hold.  On that domain the checked instantiation the
+driver executes never reports an overflow, and the number-theoretic theorems above apply to its result. -/
+
+theorem egcdT_dom (t : IntTy) (a b c : Int) (h : domEgcd t a b c = true) : egcdT t a b c = egcd a b c :=
+  egcdT_dom' t a b c h
+
+theorem crtT_dom (t : IntTy) (a1 m1 a2 m2 : Int) (h : domCrt t a1 m1 a2 m2 = true) :
+    crtT t a1 m1 a2 m2 = crt a1 m1 a2 m2 := crtT_dom' t a1 m1 a2 m2 h
+
+/-- What the driver prints for `egcd:ty` inside the domain: never an error, `none` exactly when `gcd ∤ c`, and a
+    returned pair solves the equation. -/
+theorem egcd_dom_answer (t : IntTy) (a b c : Int) (h : domEgcd t a b c = true) :
+    ∃ r, egcdT t a b c = .ok r ∧ (r = none ↔ ¬ (Int.gcd a b : Int) ∣ c) ∧ ∀ x y, r = some (x, y) → a * x + b * y = c := by
+  have hab : ¬(a = 0 ∧ b = 0) := by
+    simp only [domEgcd, Bool.and_eq_true, Bool.not_eq_true', Bool.and_eq_false_imp, decide_eq_true_eq,
+      decide_eq_false_iff_not] at h
+    exact fun h0 => h.1.2 h0.1 h0.2
+  obtain ⟨r, hr, hnone⟩ := egcd_complete a b c hab
+  refine ⟨r, by rw [egcdT_dom t a b c h, hr], hnone, ?_⟩
+  intro x y hxy
+  rw [hxy] at hr
+  exact egcd_sound a b c x y hr
+
+/-- What the driver prints for `crt:ty` inside the domain: `none` exactly for incompatible congruences, otherwise the
+    solution of both congruences in `[0, lcm)` (unique by `crt_unique`). -/
+theorem crt_dom_answer (t : IntTy) (a1 m1 a2 m2 : Int) (h : domCrt t a1 m1 a2 m2 = true) :
+    (¬ (Int.gcd m1 m2 : Int) ∣ a2 - a1 ∧ crtT t a1 m1 a2 m2 = .ok none) ∨
+    ((Int.gcd m1 m2 : Int) ∣ a2 - a1 ∧ ∃ x, crtT t a1 m1 a2 m2 = .ok (some x) ∧ 0 ≤ x ∧ x < (Int.lcm m1 m2 : Int) ∧
+      m1 ∣ x - a1 ∧ m2 ∣ x - a2) := by
+  rw [crtT_dom t a1 m1 a2 m2 h]
+  simp only [domCrt, Bool.and_eq_true, decide_eq_true_eq] at h
+  obtain ⟨⟨⟨⟨⟨⟨⟨⟨⟨_, hm1⟩, hm2⟩, ha10⟩, ha1⟩, ha20⟩, ha2⟩, _⟩, _⟩, _⟩ := h
+  exact crt_spec a1 m1 a2 m2 hm1 hm2 ⟨ha10, ha1⟩ ⟨ha20, ha2⟩
+
+/-- The `2^20` box of the property lies inside the `i64` domain. -/
+theorem box_inside_dom (a b c : Int) (ha : a.natAbs ≤ 2 ^ 20) (hb : b.natAbs ≤ 2 ^ 20) (hc : c.natAbs ≤ 2 ^ 20)
+    (hab : ¬(a = 0 ∧ b = 0)) (a1 m1 a2 m2 : Int) (hm1 : 1 ≤ m1 ∧ m1 ≤ 2 ^ 20) (hm2 : 1 ≤ m2 ∧ m2 ≤ 2 ^ 20)
+    (ha1 : 0 ≤ a1 ∧ a1 < m1) (ha2 : 0 ≤ a2 ∧ a2 < m2) :
+    domEgcd IntTy.i64 a b c = true ∧ domCrt IntTy.i64 a1 m1 a2 m2 = true :=
+  ⟨box_domEgcd a b c ha hb hc hab, box_domCrt a1 m1 a2 m2 hm1 hm2 ha1 ha2⟩
+
+-- i32 with moduli far above the 50 of the crate's own test and far below the type's limit: inside the domain
+example : domCrt ⟨true, 32⟩ 17 3001 2500 2999 = true := by decide
+example : crtT ⟨true, 32⟩ 17 3001 2500 2999 = crt 17 3001 2500 2999 := crtT_dom _ _ _ _ _ (by decide)
+example : ∃ x, crtT ⟨true, 32⟩ 17 3001 2500 2999 = .ok (some x) ∧ 0 ≤ x ∧ x < (Int.lcm 3001 2999 : Int) ∧
+    (3001 : Int) ∣ x - 17 ∧ (2999 : Int) ∣ x - 2500 := by
+  rcases crt_dom_answer ⟨true, 32⟩ 17 3001 2500 2999 (by decide) with ⟨hn, _⟩ | ⟨_, hx⟩
+  · exact absurd (by decide) hn
+  · exact hx
+-- the edge of i8: lcm 126 is representable, 2·(m2/g) = 28 as well; one modulus further it is not
+example : domCrt ⟨true, 8⟩ 3 9 5 14 = true := by decide
+example : domCrt ⟨true, 8⟩ 3 9 5 15 = true := by decide
+example : domCrt ⟨true, 8⟩ 3 9 5 16 = false := by decide
+example : domEgcd ⟨true, 8⟩ (-127) 126 1 = true := by decide
+example : domEgcd ⟨true, 8⟩ (-127) 126 2 = false := by decide
+example : ∃ r, egcdT ⟨true, 16⟩ 181 (-180) 180 = .ok r ∧ r ≠ none := by
+  obtain ⟨r, hr, hn, _⟩ := egcd_dom_answer ⟨true, 16⟩ 181 (-180) 180 (by decide)
+  exact ⟨r, hr, by rw [Ne, hn]; decide⟩
+example : domEgcd IntTy.i64 (2 ^ 20) (-(2 ^ 20) + 1) (2 ^ 20) = true ∧ domCrt IntTy.i64 (2 ^ 20 - 2) (2 ^ 20 - 1) 5 (2 ^ 20) = true :=
+  box_inside_dom _ _ _ (by decide) (by decide) (by decide) (by decide) _ _ _ _ (by decide) (by decide) (by decide) (by decide)
+
 end Rlib.C11
